@@ -333,6 +333,8 @@ def _carrier(k):
             return _carrier(k[3])
         if len(k) == 4 and k[:2] == ("sym", "call") and (k[2].endswith("::from_vec") or k[2].endswith("::from")) and len(k[3]) == 1:
             return _carrier(k[3][0])
+        if len(k) == 4 and k[:2] == ("sym", "call") and k[2].endswith("::from_shape_vec") and len(k[3]) == 2:
+            return ("sym", "m", "into_shape_with_order", _carrier(k[3][1]), (_carrier(k[3][0]),))          # Array::from_shape_vec(shape, v) is from_vec(v) reshaped (row-major)
         if len(k) == 4 and k[:2] == ("sym", "field") and k[3] == "0" and isinstance(k[2], tuple) and k[2][:3] == ("sym", "m", "into_raw_vec_and_offset"):
             return _carrier(k[2][3])
         return tuple(_carrier(x) for x in k)
